@@ -44,57 +44,13 @@ Proof. intros <-. rewrite firstn_app, firstn_all, Nat.sub_diag. cbn [firstn]. ap
 Lemma skipn_app_exact {A} (a b : list A) n : length a = n -> skipn n (a ++ b) = b.
 Proof. intros <-. rewrite skipn_app, skipn_all, Nat.sub_diag. reflexivity. Qed.
 
-(* unfolding equations of the reference interpreter (cbn does not refold the mutual fixpoint in hypotheses) *)
-Lemma exec_seq_eq fns fuel genv en s1 s2 out :
-  exec_stmt fns (S fuel) genv en (SSeq s1 s2) out =
-  bind (exec_stmt fns fuel genv en s1 out) (fun r out1 =>
-    match fst r with CNormal => exec_stmt fns fuel genv (snd r) s2 out1 | _ => Ok r out1 end).
-Proof. reflexivity. Qed.
-Lemma exec_if_eq fns fuel genv en c s1 s2 out :
-  exec_stmt fns (S fuel) genv en (SIf c s1 s2) out =
-  bind (eval_expr fns fuel genv en c out) (fun vc out1 =>
-    match vc with
-    | VBool b => bind (exec_stmt fns fuel genv en (if b then s1 else s2) out1) (fun r out2 =>
-                   Ok (fst r, restore (length en) (snd r)) out2)
-    | _ => Stuck end).
-Proof. reflexivity. Qed.
-Lemma exec_return_eq fns fuel genv en e out :
-  exec_stmt fns (S fuel) genv en (SReturn (Some e)) out =
-  bind (eval_expr fns fuel genv en e out) (fun v out1 => Ok (CReturn v, en) out1).
-Proof. reflexivity. Qed.
-
-(* a body that always returns never completes normally *)
-Lemma always_returns_spec fns : forall fuel s genv en out c en' o,
-  always_returns s = true -> exec_stmt fns fuel genv en s out = Ok (c, en') o -> c <> CNormal.
-Proof.
-  induction fuel as [|fuel IH]; intros s genv en out c en' o Ha He; [discriminate|].
-  destruct s as [ |s1 s2|mu x t e|x e|c0 s1 s2|c0 body|x lo hi body| | |e|nl e|e|e]; cbn [always_returns] in Ha; try discriminate Ha.
-  - (* seq *)
-    rewrite exec_seq_eq in He.
-    destruct (exec_stmt fns fuel genv en s1 out) as [[c1 e1] o1|f o1| |] eqn:E1; cbn [bind] in He; try discriminate.
-    cbn [fst snd] in He. destruct (always_returns s1) eqn:A1.
-    + pose proof (IH _ _ _ _ _ _ _ A1 E1) as Hn. destruct c1; try (exfalso; apply Hn; reflexivity); inversion He; subst; discriminate.
-    + cbn [orb] in Ha. destruct c1; try (inversion He; subst; discriminate). eapply IH; eassumption.
-  - (* if *)
-    rewrite exec_if_eq in He.
-    apply andb_true_iff in Ha. destruct Ha as [A1 A2].
-    destruct (eval_expr fns fuel genv en c0 out) as [[z|b| |s] o1|f o1| |]; cbn [bind] in He; try discriminate He.
-    destruct (exec_stmt fns fuel genv en (if b then s1 else s2) o1) as [[c1 e1] o2|f o2| |] eqn:E1; cbn [bind] in He; try discriminate.
-    inversion He; subst. cbn [fst]. destruct b; [eapply (IH s1)|eapply (IH s2)]; eassumption.
-  - (* return *)
-    destruct e as [e|].
-    + rewrite exec_return_eq in He.
-      destruct (eval_expr fns fuel genv en e out); cbn [bind] in He; try discriminate. inversion He. discriminate.
-    + inversion He. discriminate.
-Qed.
-
 (* how a source function sits in the module *)
 Definition fn_compiled (G : genv) (M : vmodule) (idx : nat) (d : fn) : Prop :=
   exists fe cf c ce' p p',
     fentry_at M idx = Some fe /\ fn_code M fe cf /\ (Z.of_nat (csize cf) < 2147483648)%Z /\
     fe_arity fe = length (fparams d) /\ fe_locals fe = length ce' /\
     compile_stmt G 0 None (map fst (fparams d)) (fbody d) p = Some (c, ce', p') /\ pool_le p' (m_strings M) /\
-    (cf = c ++ [mk OP_PUSH_VOID []; mk OP_RET []] \/ (cf = c /\ always_returns (fbody d) = true)) /\
+    cf = c ++ [mk OP_PUSH_VOID []; mk OP_RET []] /\
     fn_ok d.
 
 Definition fns_compiled (fns : list fn) (G : genv) (M : vmodule) : Prop :=
@@ -165,7 +121,7 @@ Proof.
   rewrite (firstn_app_exact _ _ _ Hlst), (skipn_app_exact _ _ _ Hlst), rev_involutive.
   destruct (compile_stmt_ext _ _ _ _ _ _ _ _ _ Hcd) as [[xd Hxd] _].
   assert (Hcd0 : code_at cf_d 0 c_d).
-  { destruct Hepi as [-> | [-> _]]; [exists [], [mk OP_PUSH_VOID []; mk OP_RET []]; split; reflexivity|apply code_at_self]. }
+  { rewrite Hepi. exists [], [mk OP_PUSH_VOID []; mk OP_RET []]. split; reflexivity. }
   set (locals := map mval_of vs ++ repeat MVoid (fe_locals fe_d - fe_arity fe_d)).
   set (caller := {| mf_fn := fn; mf_ret := ret; mf_locals := locs; mf_stack := st |}).
   assert (Hml : match_env (map fst (fparams d)) (rev en') locals).
@@ -182,13 +138,11 @@ Proof.
   destruct c3; cbn [rpost].
   - (* the body fell through: implicit return of void *)
     destruct Hp as (locs' & -> & Hl' & Hm' & Hk').
-    destruct Hepi as [-> | [-> Har']].
-    + assert (Hce : code_at (c_d ++ [mk OP_PUSH_VOID []; mk OP_RET []]) (0 + csize c_d) [mk OP_PUSH_VOID []; mk OP_RET []]).
-      { exists c_d, []. split; [reflexivity|lia]. }
-      vstep Hfed Hcoded Hce step_push_void. vnext Hce.
-      at_code Hce. apply Reach_one. erewrite step_ret; [|eapply fetch_at; eassumption].
-      cbn [ret_result caller mf_fn mf_ret mf_locals mf_stack]. split; [same_state|exact I].
-    + exfalso. eapply always_returns_spec; [exact Har'|exact Hex|reflexivity].
+    assert (Hce : code_at cf_d (0 + csize c_d) [mk OP_PUSH_VOID []; mk OP_RET []]).
+    { rewrite Hepi. exists c_d, []. split; [reflexivity|lia]. }
+    vstep Hfed Hcoded Hce step_push_void. vnext Hce.
+    at_code Hce. apply Reach_one. erewrite step_ret; [|eapply fetch_at; eassumption].
+    cbn [ret_result caller mf_fn mf_ret mf_locals mf_stack]. split; [same_state|exact I].
   - destruct m; rt; exact I.
   - destruct m; rt; exact I.
   - destruct Hp as [-> Hv]. cbn [ret_result caller mf_fn mf_ret mf_locals mf_stack].
